@@ -170,6 +170,59 @@ theorem otsuVar_nonneg (hist : List Nat) (total : Int) (htot : total = cumW hist
     rw [Int.mul_assoc]
     exact Int.mul_nonneg (Int.mul_nonneg h1 (by omega)) (mul_self_nonneg' _)
 
+/-! ### size of the between-class variance (exactness of the `double` computation) -/
+
+theorem cumS_seg (hist : List Nat) (n m : Nat) (hnm : n ≤ m) (hm : m ≤ 256) :
+    0 ≤ cumS hist m - cumS hist n ∧ cumS hist m - cumS hist n ≤ 255 * (cumW hist m - cumW hist n) := by
+  induction m with
+  | zero => have : n = 0 := by omega
+            subst this; simp
+  | succ m ih =>
+    by_cases hn : n = m + 1
+    · subst hn; simp
+    · obtain ⟨i1, i2⟩ := ih (by omega) (by omega)
+      simp only [cumS, cumW]
+      have hh : (0 : Int) ≤ ((hist.getD m 0 : Nat) : Int) := by omega
+      have a : (0 : Int) ≤ (m : Int) * ((hist.getD m 0 : Nat) : Int) := Int.mul_nonneg (by omega) hh
+      have b : (m : Int) * ((hist.getD m 0 : Nat) : Int) ≤ 255 * ((hist.getD m 0 : Nat) : Int) :=
+        Int.mul_le_mul_of_nonneg_right (by omega) hh
+      omega
+
+theorem ediv_bounds (a b : Int) (hb : 0 < b) (h0 : 0 ≤ a) (h1 : a ≤ 255 * b) : 0 ≤ a / b ∧ a / b ≤ 255 := by
+  refine ⟨Int.ediv_nonneg h0 (by omega), ?_⟩
+  apply Int.ediv_le_of_le_mul hb
+  omega
+
+theorem sq_le_of_abs_le (d : Int) (h1 : -255 ≤ d) (h2 : d ≤ 255) : d * d ≤ 255 * 255 := by
+  rcases Int.le_total 0 d with h | h
+  · exact Int.mul_le_mul h2 h2 h (by omega)
+  · have := Int.mul_le_mul (show -d ≤ 255 by omega) (show -d ≤ 255 by omega) (show 0 ≤ -d by omega) (by omega)
+    rwa [Int.neg_mul_neg] at this
+
+theorem otsuVar_le (hist : List Nat) (total : Int) (htot : total = cumW hist 256) (t : Nat) (ht : t < 256) :
+    otsuVar hist total t ≤ total * total * (255 * 255) := by
+  have hT0 : 0 ≤ total := by rw [htot]; exact cumW_nonneg hist 256
+  unfold otsuVar; simp only
+  split
+  · exact Int.mul_nonneg (Int.mul_nonneg hT0 hT0) (by omega)
+  · rename_i hne
+    have w0 := cumW_nonneg hist (t + 1)
+    have w1 := cumW_mono hist (t + 1) 256 (by omega)
+    have s1 := cumS_seg hist 0 (t + 1) (by omega) (by omega)
+    have s2 := cumS_seg hist (t + 1) 256 (by omega) (by omega)
+    simp only [cumS, cumW, Int.sub_zero] at s1
+    have hwb : 0 < cumW hist (t + 1) := by omega
+    have hwf : 0 < total - cumW hist (t + 1) := by omega
+    have mb := ediv_bounds (cumS hist (t + 1)) (cumW hist (t + 1)) hwb s1.1 s1.2
+    have mf := ediv_bounds (cumS hist 256 - cumS hist (t + 1)) (total - cumW hist (t + 1)) hwf s2.1 (by rw [htot]; exact s2.2)
+    generalize cumS hist (t + 1) / cumW hist (t + 1) = a at *
+    generalize (cumS hist 256 - cumS hist (t + 1)) / (total - cumW hist (t + 1)) = b at *
+    have hd := sq_le_of_abs_le (a - b) (by omega) (by omega)
+    have hww : cumW hist (t + 1) * (total - cumW hist (t + 1)) ≤ total * total :=
+      Int.mul_le_mul (by omega) (by omega) (by omega) hT0
+    rw [Int.mul_assoc]
+    exact Int.mul_le_mul hww hd (mul_self_nonneg' _) (Int.mul_nonneg hT0 hT0)
+
 /-! ### histogram totals -/
 
 theorem cumW_set (hist : List Nat) (i : Nat) (hi : i < hist.length) (n : Nat) :
